@@ -76,4 +76,11 @@ def sensitive : WKind → Bool
 def gateOk (cfg : Cfg) (ws : List Write) : Bool :=
   cfg.insecure || ws.all (fun w => !sensitive w.kind || w.secure)
 
+/-- **C14 at session level**: "anything other than `<success/>` is never treated as authenticated" - when the
+reply to `<auth/>` is not success, the connection is not established and the client writes nothing after its
+`<auth/>` (no stream restart, no bind on the unauthenticated stream). -/
+def authGateOk (sc : Script) (established : Bool) (ws : List Write) : Bool :=
+  let afterAuth := (ws.dropWhile (fun w => w.kind != .auth)).drop 1
+  sc.authReply == .success || !(ws.any (fun w => w.kind == .auth)) || (!established && afterAuth.isEmpty)
+
 end XmppVerif.Spec.Neg
